@@ -937,8 +937,8 @@ class Interp:
                 return P(name, sub(gens[-2]), sub(gens[-1]))
             if name in ("delimited", "separated_pair"):
                 return P(name, sub(gens[-3]), sub(gens[-2]), sub(gens[-1]))
-            if name == "cut_err":
-                return P("cut_err", sub(gens[-1]))
+            if name in ("cut_err", "peek", "opt", "not"):
+                return P(name, sub(gens[-1]))
             if name == "alt":
                 return P("alt", list(sub(gens[-1])))
             if name == "one_of":
@@ -946,7 +946,8 @@ class Interp:
             raise Unsupported("zero-sized winnow closure " + name)
         if t.startswith("(") and t.endswith(")"):
             return tuple(self.value_from_zst_type(x, env) for x in split_top(t[1:-1]))
-        m = re.match(r"winnow::combinator::(\w+)<", t)
+        m = re.match(r"(?:winnow::combinator::(?:\w+::)?)?(Map|Verify|AndThen|Value|Context|TryMap|Void|Span|Recognize|Take)<", t) or \
+            re.match(r"winnow::combinator::(\w+)<", t)
         if m:
             from .winnow import P
             gens = split_top(t[m.end():match_close(t, m.end() - 1, angle=True)])
@@ -962,6 +963,8 @@ class Interp:
             if m.group(1) == "AndThen":
                 return P("and_then", sub(gens[0]), sub(gens[1]))
             raise Unsupported("zero-sized winnow adaptor " + m.group(1))
+        if os.environ.get("VERIF_DEBUG"):
+            print("DEBUG opaque zst type:", t[:300], file=sys.stderr)
         return Opaque("zst", t)
 
     def eval_const_item(self, cf):
